@@ -5,3 +5,21 @@ package builtins
 //@ scan[C12.realos.builtins] C12 extcalls os.*,os/exec.*,os/user.*,io/ioutil.*,path/filepath.Abs,path/filepath.Glob,path/filepath.Walk,path/filepath.WalkDir,path/filepath.EvalSymlinks,syscall.*,-os.Err*,-os.init,-syscall.init,-os/exec.init,-os/user.init:
 
 //@ scan[C12.freshctx.builtins] C12 extcalls context.Background,context.TODO:
+
+// codecs: guarded by mutex (guard obligations below).
+//@ scan[C09.globals.builtins] C09 pkgglobals github.com/risor-io/risor/builtins: codecs<-RegisterCodec
+
+// The codec registry is read and written only under its mutex.
+//@ guarded codecs &mutex
+
+//@ func RegisterCodec
+//@ props C09
+//@ requires !ghost("lock.w", bool, &mutex) && !ghost("lock.r", bool, &mutex)
+//@ ensures[C09.released] !ghost("lock.w", bool, &mutex)
+
+//@ func GetCodec
+//@ props C09
+//@ requires !ghost("lock.w", bool, &mutex) && !ghost("lock.r", bool, &mutex)
+//@ ensures[C09.released] !ghost("lock.r", bool, &mutex)
+
+//@ scan[C09.codecs.users] C09 extcalls github.com/risor-io/risor/builtins.codecs: RegisterCodec GetCodec init
